@@ -32,7 +32,7 @@ import sys
 assert sys.version_info >= (3, 0)  # Bomb out if not running Python3
 
 
-import operator, re, time, traceback, uuid, fnmatch, opentracing
+import copy, operator, re, time, traceback, uuid, fnmatch, opentracing
 
 from datetime import datetime, timezone, timedelta
 from aioprometheus import Counter, Histogram
@@ -433,7 +433,12 @@ class StateEngine(object):
         https://docs.aws.amazon.com/step-functions/latest/dg/input-output-contextobject.html
         """
         if "Input" not in execution:
-            execution["Input"] = data
+            """
+            Use a copy, because the start state's ResultPath is applied to its
+            raw input (this data object) in place, which must not change what
+            $$.Execution.Input refers to.
+            """
+            execution["Input"] = copy.deepcopy(data)
 
         if "RoleArn" not in execution:
             """
